@@ -451,7 +451,7 @@ def run(ctx):
             recipe = gen_recipe(rng, 1, "partial", "partial", ms, mo, md_config(rng, which, 1), fs, fo, "single")
             run_case(ctx, recipe, ("policy-product",))
     # random, including k-tuples
-    n = 700 if ctx.quick() else 60000
+    n = 2000 if ctx.quick() else 60000
     for _ in range(n):
         k = rng.choice([1, 1, 2, 2, 3])
         form = "single" if (k == 1 and rng.random() < 0.5) else rng.choice(["list", "tuple"])
